@@ -201,6 +201,65 @@ def composite(rng, hostile=False, alias=False):
             'kind': 'composite'}
 
 
+def pair_designs(rng, count, widths=(1, 2, 3)):
+    """structural tops that hold TWO configurations of the same library class (different widths, parameters or optional
+    ports, e.g. DelayLine(delay=0) next to DelayLine(delay=2)), in either order: whatever a generator remembers per class
+    or per module name must not leak from one instance to the other"""
+    import py4hw
+    groups = {}
+    with quiet():
+        for cfg in library.catalogue(rng, widths=widths):
+            groups.setdefault(cfg['kind'], []).append((cfg, False))
+        for cfg in seqlib.catalogue(widths=tuple(w for w in widths if w <= 3) or (1,)):
+            groups.setdefault(cfg['kind'], []).append((cfg, True))
+    kinds = sorted(k for k, v in groups.items() if len(v) >= 2)
+    out = []
+    tries = 0
+    # first, for every class, its two extreme configurations (first and last of the catalogue) in both orders; then random pairs
+    fixed = []
+    for kind in kinds:
+        g = groups[kind]
+        fixed += [(kind, g[0], g[-1]), (kind, g[-1], g[0])]
+    while len(out) < count and tries < 20 * count:
+        tries += 1
+        if fixed:
+            kind, (c1, s1), (c2, s2) = fixed.pop(0)
+        else:
+            kind = rng.choice(kinds)
+            (c1, s1), (c2, s2) = rng.sample(groups[kind], 2)
+        with quiet():
+            hw = py4hw.HWSystem()
+
+            class Top(py4hw.Logic):
+                def __init__(self, parent, name):
+                    super().__init__(parent, name)
+            top = Top(hw, 'top')
+            try:
+                for tag, cfg in (('p', c1), ('s', c2)):
+                    ins = [hw.wire('%si%d' % (tag, k), w) for k, w in enumerate(cfg['iw'])]
+                    outs = [hw.wire('%so%d' % (tag, k), w) for k, w in enumerate(cfg['ow'])]
+                    for k, w in enumerate(ins):
+                        top.addIn('%si%d' % (tag, k), w)
+                    for k, w in enumerate(outs):
+                        top.addOut('%so%d' % (tag, k), w)
+                    before = set(top.children)
+                    cfg['mk'](top, ins, outs)
+                    for nm_ in set(top.children) - before:          # library helpers name their instance 'dut': make them distinct
+                        if nm_ == 'dut':
+                            obj = top.children.pop(nm_)
+                            obj.name = 'dut_' + tag
+                            top.children[obj.name] = obj
+            except Exception:
+                continue
+        if len(top.children) != 2:
+            continue
+        pin = [(p.name, p.wire) for p in top.inPorts]
+        pout = [(p.name, p.wire) for p in top.outPorts]
+        out.append({'name': 'pair %s | %s' % (c1['name'], c2['name']), 'hw': hw, 'top': top, 'ins': pin, 'outs': pout,
+                    'seq': s1 or s2, 'kind': 'pair:' + kind})
+    return out
+
+
 def emit(top, whole=True):
     import py4hw
     with quiet():
